@@ -26,7 +26,7 @@
      array) from the upper bound of a SIZE RANGE changes no decoded value and is unbounded
      over the family SIZE(lo..h), h >= 64K, on every input, the empty one included. *)
 From Coq Require Import ZArith List Bool.
-From A1 Require Import Base.Bytes Rt.Types Rt.Der Rt.Oer Rt.Uper Rt.Depth Rt.DepthProofs Rt.HeapBound Rt.HeapBoundProofs.
+From A1 Require Import Base.Bytes Rt.Types Rt.Der Rt.Oer Rt.Uper Rt.Depth Rt.DepthProofs Rt.HeapBound Rt.HeapBoundProofs Rt.HeapOer Rt.HeapOerProofs Rt.HeapOerFuel.
 Import ListNotations.
 Local Open Scope Z_scope.
 
@@ -198,3 +198,52 @@ Theorem C15_front_end_list_heap_partial : forall (ub : nat) (esz : Z) (s : scon)
   l_count (snd ml) <= zlen bs + 201 /\ m_peak (fst ml) <= (esz + 24) * (zlen bs + 201) + 32.
 Proof. exact c15_lst_heap_bound. Qed.
 Print Assumptions C15_front_end_list_heap_partial.
+
+(* ---------------- round C15w: nested lists in OER (Rt/HeapOer.v) ---------------- *)
+
+(* SET_OF_decode_oer with its per-element guard, lists nested to ANY depth over any fixed-width
+   leaf (width 0 = NULL): peak heap linear in the input octets, constants of the type only *)
+Theorem C15_oer_nested_heap_linear_partial : forall (t : lty) (bs : list Z), wf t ->
+  2 * m_peak (r_m (oll_run PerElement t bs)) <= 3 * (ca t * zlen bs + cb t).
+Proof. exact oll_heap_linear. Qed.
+Print Assumptions C15_oer_nested_heap_linear_partial.
+
+(* what the element loop relies on, per type: live heap <= ca * consumed + cb, consumed <= input, width class *)
+Theorem C15_oer_nested_decoder_invariant : forall (t : lty), wf t -> forall F : nat,
+  dec_ok (ca t) (cb t) (zw t) (oll_dec PerElement F t).
+Proof. exact oll_dec_ok. Qed.
+Print Assumptions C15_oer_nested_decoder_invariant.
+
+(* Rows ::= SEQUENCE OF Row, Row ::= SEQUENCE OF NULL *)
+Theorem C15_oer_null_rows_heap_partial : forall bs : list Z,
+  m_peak (r_m (oll_run PerElement null_rows bs)) <= 6180 * zlen bs + 6252.
+Proof. exact null_rows_heap_linear. Qed.
+Print Assumptions C15_oer_null_rows_heap_partial.
+
+(* the up-front test "a quantity above 200 must be covered by the octets left" instead of the per-element
+   guard: K rows, each announcing the octets behind it, are ACCEPTED and cost 18 K (K - 1) bytes for 9 K + 9 octets *)
+Theorem C15_oer_upfront_quadratic : forall K : nat, 9 * Z.of_nat K + 9 <= rsize_max ->
+  let x := oll_run UpFront null_rows (bomb K) in
+  r_rc x = ROk /\ zlen (bomb K) = 9 * Z.of_nat K + 9 /\
+  18 * Z.of_nat K * (Z.of_nat K - 1) <= m_live (r_m x) /\ m_live (r_m x) <= m_peak (r_m x).
+Proof. exact upfront_quadratic. Qed.
+Print Assumptions C15_oer_upfront_quadratic.
+
+Theorem C15_oer_nested_heap_upfront_refuted : forall c K0 : Z, 0 <= c -> 0 <= K0 -> c + K0 <= 1000000000000000 ->
+  exists bs, r_rc (oll_run UpFront null_rows bs) = ROk /\
+             c * zlen bs + K0 < m_peak (r_m (oll_run UpFront null_rows bs)).
+Proof. exact upfront_refuted. Qed.
+Print Assumptions C15_oer_nested_heap_upfront_refuted.
+
+(* ... and the per-element guard keeps the very same inputs under the linear bound *)
+Theorem C15_oer_bomb_per_element : forall K : nat,
+  m_peak (r_m (oll_run PerElement null_rows (bomb K))) <= 6180 * zlen (bomb K) + 6252.
+Proof. exact bomb_per_element. Qed.
+Print Assumptions C15_oer_bomb_per_element.
+
+(* the fuel the element loops get from [oll_run] (input length + 202) is enough under the per-element guard:
+   the model's outcome is always one of the C's (RC_OK, RC_WMORE, RC_FAIL) *)
+Theorem C15_oer_nested_fuel_suffices : forall (t : lty) (bs : list Z), wf t ->
+  r_rc (oll_run PerElement t bs) <> RFuel.
+Proof. exact oll_run_nofuel. Qed.
+Print Assumptions C15_oer_nested_fuel_suffices.
